@@ -20,6 +20,8 @@ with open(os.path.join(V, "seeded", "SUMMARY.md"), "w") as f:
     for r in rows:
         f.write("| %s | %s | %s | %s | %s |\n" % r)
     det = sum(1 for r in rows if "DETECTED" in r[3])
+    neu = sum(1 for r in rows if "neutralised" in r[3])
     f.write("\n%d seeded changes, %d detected by the check of their own property (after the extensions listed in "
-            "DESIGN.md 14.4).\n" % (len(rows), det))
+            "DESIGN.md 14.4), %d no longer break the property on the current tree because a later fix: commit in "
+            "/repo neutralises them (their own demo passes; see the meta.json).\n" % (len(rows), det, neu))
 print(len(rows), "rows")
